@@ -1,6 +1,7 @@
 package main
 
 import (
+	"regexp"
 	"go/constant"
 	"fmt"
 	"go/token"
@@ -65,6 +66,8 @@ func init() {
 			Run: func(P *Program, R *Report) { decodedProductRule(P, R, "C09.i") }},
 		Rule{ID: "C09.f", Explain: "Accumulator.Remove / newWitness: new Nu = Nu^(e^-1 mod Order) mod N, index+1, the event carries e, the new index and the parent's hash; a fresh witness is u = Nu^(e^-1) (symbolic terms; inverses checked).",
 			Run: func(P *Program, R *Report) { accumulatorRemoveRule(P, R) }},
+		Rule{ID: "C09.k", Explain: "an update that has something new is applied: Witness.Update returns nil without having replaced the witness' accumulator only for the specified reasons - the update carries no events, it ends at or before our index, or it is for our index and not newer in time. Any other quiet return (a staleness shortcut on a clock value, a cache hit) leaves a witness behind the accumulator it was shown, or hides a revocation from its holder.",
+			Run: func(P *Program, R *Report) { quietReturnsRule(P, R, "C09.k") }},
 		Rule{ID: "C09.j", Explain: "one update object serves several witnesses and several polls: decoding the next message into a used Update does not write through objects that witnesses updated from it still hold (the decoders start from a zero-valued intermediate value, same rule as C18.n).",
 			Run: func(P *Program, R *Report) { freshDecodeTargetRule(P, R, "C09.j") }},
 	)
@@ -696,4 +699,45 @@ func prependProductRule(P *Program, R *Report, rule string) {
 		}
 	}
 	R.decide(rule, "revocation.(*Update).Prepend:no-in-place-on-inputs", "Prepend multiplies into the new object's product only, never into the receiver's or the list's", okMul, strings.Join(detail, "\n"), P.Pos(pf.Pos()))
+}
+
+// quietReturnsRule: see C09.k.
+var quietReasons = map[string]string{
+	"ourAcc.Index|int|>=|newAcc.Index":        "the update ends at or before the witness' index: nothing new",
+	"ourAcc.Time|int|>=|newAcc.Time":          "same index and not newer in time: nothing new",
+	"len(<revocation.Update>.Events)|int|==|0": "the update carries no events: nothing to apply",
+}
+
+var newAccCall = regexp.MustCompile(`call:revocation\.\(\*Update\)\.Verify\([^)]*\)#0`)
+
+func quietReturnsRule(P *Program, R *Report, rule string) {
+	fn := mustFunc(P, R, rule, kWitUpdate)
+	if fn == nil {
+		return
+	}
+	be := P.bigEval(fn)
+	n := 0
+	for _, r := range returnsOf(fn) {
+		if retCount(r) != 1 || !isNilConst(retValue(r, 0)) {
+			continue
+		}
+		applied := (&MustPass{P: P, NoInterproc: true, Instr: func(_ *ssa.Function, i ssa.Instruction) bool {
+			st, ok := i.(*ssa.Store)
+			return ok && strings.HasPrefix(desc(st.Addr), "<revocation.Witness>.SignedAccumulator")
+		}}).MustReach(fn, r)
+		if applied.Holds {
+			continue
+		}
+		n++
+		conds := controllingConds(r.Block())
+		reason := "unconditional"
+		if len(conds) > 0 {
+			_, reason = reasonOf(conds[0], be)
+			reason = newAccCall.ReplaceAllString(reason, "newAcc")
+			reason = strings.ReplaceAll(reason, "<revocation.Witness>.SignedAccumulator.Accumulator", "ourAcc")
+		}
+		_, ok := quietReasons[reason]
+		R.decide(rule, kWitUpdate+":quiet-return:"+reason, "a return of nil that leaves the witness as it was is one of the specified ones", ok, "nearest condition: "+reason, P.Pos(r.Pos()))
+	}
+	R.decide(rule, kWitUpdate+":quiet-returns", "the quiet returns were enumerated (>= 3)", n >= 3, fmt.Sprintf("%d", n), P.Pos(fn.Pos()))
 }
